@@ -335,13 +335,14 @@ def ledger_run(rep, impl, model, cases, label, stats):
 
     for b0 in range(0, len(cases), B):
         batch = cases[b0:b0 + B]
-        iout, crash = run_cases(impl, batch, timeout=900)
-        mout, mcrash = run_cases(model, batch, timeout=900)
+        iout, crash = run_cases(impl, batch, timeout=240)
+        mout, mcrash = run_cases(model, batch, timeout=240)
         if crash:
             ci, rc, errtxt = crash
             small = batch[ci]
             try:
-                small = ddmin(batch[ci], lambda c: run_cases(impl, [c], timeout=60)[1] is not None, max_iter=60)
+                if rc != -9:      # (a hang is not shrunk: every probe would cost a timeout)
+                    small = ddmin(batch[ci], lambda c: run_cases(impl, [c], timeout=30)[1] is not None, max_iter=40)
             except Exception:
                 pass
             p = rep.replay_file("crash_%s_%d.case" % (label, b0 + ci), "# implementation crashed / hung / sanitizer report (rc=%s)\n# %s\n" % (rc, errtxt.replace("\n", "\n# ")) + "\n".join(small) + "\n")
@@ -448,10 +449,14 @@ def gen_program(rng, transports):
         s = rng.choice(socks)
         p = proto_of[s]
         t = rng.choice([c for c in ctxs if c[1] == s] or [(s, s)])[0] if rng.random() < 0.4 else s
-        if r < 0.30:
+        if r < 0.27:
             L.append("bsend %s %s %s %d" % (t, hdr(p), tags.next(), rng.choice([0, 5, 40])))
-        elif r < 0.55:
+        elif r < 0.30:
+            L.append("bufsend %s %s" % (s, tags.next()))
+        elif r < 0.52:
             L.append("brecv %s %d" % (t, rng.choice([0, 5, 40])))
+        elif r < 0.55:
+            L.append("bufrecv %s %d" % (s, rng.choice([0, 2, 64])))
         elif r < 0.63 and na < 40:
             L.append("send %s a%d %s %s" % (t, na, hdr(p), tags.next())); na += 1
         elif r < 0.70 and na < 40:
@@ -515,12 +520,38 @@ def gen_device_program(rng, transports):
     return L
 
 
+def gen_device_stress(rng, k):
+    """a device socket closed / the device stopped while requests are in flight (the window in which a path's
+    completed receive is overtaken by the abort of its aio: core/device.c)"""
+    _uniq[0] += 1
+    tags = Tags(rng)
+    fa, fb, ca, cb = rng.choice([("rep0_raw", "req0_raw", "req0", "rep0"), ("sub0_raw", "pub0_raw", "pub0", "sub0"),
+                                 ("pull0_raw", "push0_raw", "push0", "pull0")])
+    u1 = "ipc://%s/c03st_%d_%da.ipc" % (SCRATCH, os.getpid(), _uniq[0]) if rng.random() < 0.6 else "inproc://c03st_%d_%da" % (os.getpid(), _uniq[0])
+    u2 = "inproc://c03st_%d_%db" % (os.getpid(), _uniq[0])
+    L = ["xopen s0 " + fa, "xopen s1 " + fb, "listen s0 l0 " + u1, "listen s1 l1 " + u2, "device a60 s0 s1", "xopen s2 " + ca, "xopen s3 " + cb]
+    if cb == "sub0":
+        L.append("setopt s3 x sub -")
+    L += ["dial s2 d0 " + u1, "dial s3 d1 " + u2, "msleep 10"]
+    for _ in range(rng.randrange(1, 5)):
+        L.append("bsend s2 - %s %d" % (tags.next(), rng.choice([5, 40])))
+        L.append("brecv s3 %d" % rng.choice([5, 40]))
+        if ca == "req0" and rng.random() < 0.6:
+            L.append("bsend s3 - %s 10" % tags.next())
+            if rng.random() < 0.5:
+                L.append("brecv s2 10")
+    L.append("send s2 a1 - " + tags.next())
+    L.append(rng.choice(["devstop a60", "devstop a60 cancel", "close s1", "close s0", "close s1"]))
+    L += ["bsend s2 - %s 5" % tags.next(), "brecv s3 5", "settle"]
+    return L
+
+
 def balance_run(rep, impl, programs, stats):
     """programs over real transports: judge only what cannot depend on timing"""
     B = 25
     for b0 in range(0, len(programs), B):
         batch = programs[b0:b0 + B]
-        out, crash = run_cases(impl, batch, timeout=900)
+        out, crash = run_cases(impl, batch, timeout=300)
         script = []
         for k, c in enumerate(batch):
             script.append("mark %d" % k); script.extend(c)
@@ -575,13 +606,22 @@ def fini_check(rep, impl, programs, stats, key=None):
 # ------------------------------------------------------------------ the run
 def run(tier, seed, replay=None):
     rep = Report("C03", tier, seed, level="proof (ledger) + observed (memory safety)")
+    phase = rep.cov.setdefault("phase_s", {})
+    t0 = time.time()
+
+    def tick(name):
+        nonlocal t0
+        phase[name] = round(time.time() - t0, 1)
+        t0 = time.time()
     ok, msg = gen_consts("c03")
     cb = coq_build("Properties_C03", timeout=2400)
     gate = coq_gate()
     rep.proof_cov(cb, "make -C coq Props/Properties_C03.vo && coqc Props/Properties_C03.v (Print Assumptions) ; grep gate")
     proof_ok = ok and cb["ok"] and not gate
     why = "; ".join(gate[:3]) if gate else (msg if not ok else "see log")
+    tick("coq")
     model_build("c03")
+    tick("model_build")
     bdir, err = nng_build("asan")
     if bdir is None:
         p = rep.replay_file("build_failed.txt", err)
@@ -592,6 +632,7 @@ def run(tier, seed, replay=None):
         p = rep.replay_file("wb_ledger_build.txt", err)
         rep.violation(p, "the C03 driver does not build against the current tree (correspondence broken)", nofail=True)
         return rep.finish()
+    tick("nng_build")
     model = model_bin("modeld_c03")
     rc, out, _ = run_prog(impl, "mark 0\n", timeout=60)
     hello = out[0] if out else ""
@@ -622,16 +663,18 @@ def run(tier, seed, replay=None):
         quick = tier == "quick"
         # (1) corpus, (2) option / cancel / close / loss at every position of every protocol's exchange
         cases = load_corpus("C03")
-        inj = gen_injection_cases(rng, 26 if quick else None)
+        inj = gen_injection_cases(rng, 40 if quick else None)
         ledger_run(rep, impl, model, cases + inj, "inject", stats)
         rep.cov["injection_cases"] = len(inj)
+        tick("inject")
         # (3) random histories, every protocol; (4) the other protocol checks' own generators
-        rnd = [gen_random_case(rng) for _ in range(250 if quick else 6000)]
+        rnd = [gen_random_case(rng) for _ in range(700 if quick else 12000)]
         ledger_run(rep, impl, model, rnd, "random", stats)
+        tick("random")
         gens = borrowed_generators(rng)
         bor = []
         for g in gens:
-            for _ in range(6 if quick else 250):
+            for _ in range(12 if quick else 400):
                 try:
                     c = g()
                     bor.append(c[0] if isinstance(c, tuple) else c)
@@ -639,15 +682,19 @@ def run(tier, seed, replay=None):
                     pass
         ledger_run(rep, impl, model, bor, "borrowed", stats)
         rep.cov["borrowed_cases"] = len(bor)
+        tick("borrowed")
         # (5) programs over real transports + devices: allocator balance
         transports = ["inproc", "ipc", "tcp"]
-        progs = [gen_program(rng, transports) for _ in range(40 if quick else 1500)]
-        progs += [gen_device_program(rng, ["inproc", "ipc"]) for _ in range(10 if quick else 300)]
+        progs = [gen_program(rng, transports) for _ in range(150 if quick else 5000)]
+        progs += [gen_device_program(rng, ["inproc", "ipc"]) for _ in range(40 if quick else 1500)]
+        progs += [gen_device_stress(rng, k) for k in range(30 if quick else 1200)]
         balance_run(rep, impl, progs, stats)
+        tick("balance")
         plain = [c for c in progs if not any(x.startswith("device ") for x in c)]
         devs = [c for c in progs if any(x.startswith("device ") for x in c)]
-        fini_check(rep, impl, plain[:60 if quick else 400], stats)
-        fini_check(rep, impl, devs[:30 if quick else 200], stats)
+        fini_check(rep, impl, plain[:100 if quick else 600], stats)
+        fini_check(rep, impl, devs[:40 if quick else 400], stats)
+        tick("fini")
     if not proof_ok and not rep.violations:
         proof_broken_report(rep, cb, "C03 theorems do not check (%s)" % why)
     rep.cov["distinct_nontrivial"] = len(stats["nontrivial"])
